@@ -295,7 +295,7 @@ func genWaitCancelRuns(r *rng, kinds []LeafCfg, emit func(FlowScenario)) {
 		}
 		for _, N := range []int{2, 3} {
 			for at := 1; at < N; at++ {
-				if at == 2 && cnt%4 != 0 { // a fired 120 ms wait each: keep these few
+				if at == 2 && cnt%4 != 0 { // a fired 1.5 s wait each: keep these few
 					cnt++
 					continue
 				}
@@ -307,7 +307,9 @@ func genWaitCancelRuns(r *rng, kinds []LeafCfg, emit func(FlowScenario)) {
 					cfg.Budget = N
 					cfg.Wait = 3600000
 					if at > 1 {
-						cfg.Wait = 120
+						// the cancellation is sent 30 ms into the SECOND wait: the wait must outlast that by a margin no scheduler
+						// delay eats up (120 ms did not, once, with every core busy: the wait elapsed before the canceller ran)
+						cfg.Wait = 1500
 					}
 					t.next, t.errN = r.intn(30), r.intn(20)
 					scr := t.leafScript(0, 0, true, 0, N+1, fbOK, postStr(t, cnt%2, "a"))
